@@ -170,8 +170,21 @@ def rule_allow_incomplete(facts):
         if t[0] == "discr" and pat.has_call(t, "Option::take") and len(blk.term.targets) >= 2 and not pat.has_call(t, "Try::branch") \
                 and data_arm is None:
             data_arm = dict(blk.term.targets).get(1)
-    from rules.C03 import _ok_sources
-    oks = _ok_sources(f)
+    # more precisely: the switch on the discriminant of the State enum, its `Data` edge (whatever the nesting of the matches)
+    adt_state = facts.adt("decode::stream::State")
+    if adt_state is not None:
+        vidx = [i for i, v in enumerate(adt_state["variants"]) if v["name"].split("::")[-1] == "Data"]
+        for blk in f.blocks:
+            if blk.cleanup or blk.term.k != "switch" or blk.term.discr.place is None or blk.term.discr.place.proj:
+                continue
+            dl = blk.term.discr.place.local
+            for b2 in f.blocks:
+                for st in b2.stmts:
+                    if st.k == "assign" and not st.place.proj and st.place.local == dl and st.rv.k == "discriminant" and \
+                            st.rv.place.ty.k == "adt" and (st.rv.place.ty.name or "").endswith("stream::State") and vidx:
+                        e_ = dict(blk.term.targets).get(vidx[0], blk.term.otherwise)
+                        data_arm = e_
+    oks = [o for o, k in flow.ret_sources(f).items() if k in ("ok", "any", "other")]
     if data_arm is not None and oks:
         mine = [x for x in oks if x in c.reachable_from(data_arm)]
         if mine and all(x not in c.reachable_from(data_arm, avoid=[fin[0]]) for x in mine):
